@@ -961,7 +961,7 @@ pub fn run(tier: &str) -> i32 {
     let parts: Vec<(u32, usize, usize, usize)> = if quick {
         vec![(1, 2, 2, 2), (2, 3, 2, 2)]
     } else {
-        vec![(1, 3, 3, 3), (2, 4, 3, 3), (3, 3, 2, 3)]
+        vec![(1, 2, 3, 3), (1, 3, 2, 3), (2, 4, 2, 2), (3, 3, 2, 3)]
     };
     for (theta, n, mi, mh) in parts {
         let mut base = Alphabet::tree(n, &[1]);
